@@ -1,5 +1,6 @@
 PROP = {
-    "groups": ["guards", "hostile"],
+    "groups": ["guards", "hostile", "scanners"],
+    "gen": ["guards", "Skel_guards.v"],
     "timeout": 600,
     "rule": "guards: the real pipelineRecvBinaryData / recvData / recvPrefixHash / recvConfig / pipelineRecvCurrentAck / "
             "pipelineRecvFinalAck / createProgressBar+newTextProgressBar / recvInteger / parseTrzszVersion / unmarshalTargetFile "
